@@ -15,8 +15,8 @@ for i in 1 2; do echo "EVAL ctest#$i: $(ctest --test-dir "$W/_build" -j8 --timeo
 rm -f /tmp/eval-build-$ID.log
 T=/tmp/eval-demo-$ID; rm -rf $T; mkdir -p $T/with $T/without
 for f in "$D"/*; do case "$(basename "$f")" in patch.diff|README.md|meta.json|_*) ;; *) [ -f "$f" ] && cp "$f" $T/with/ ;; esac; done; cp -r $T/with/. $T/without/
-(cd $T/with && UNODB_ROOT=$W OUT=$T/with/demo timeout 600 sh ./build.sh >$T/with.log 2>&1; echo "EVAL demo with change: exit $? ($(tail -1 $T/with.log | cut -c1-160))")
-(cd $T/without && UNODB_ROOT=/repo OUT=$T/without/demo timeout 600 sh ./build.sh >$T/without.log 2>&1; echo "EVAL demo without change: exit $? ($(tail -1 $T/without.log | cut -c1-160))")
+(cd $T/with && UNODB_ROOT=$W OUT=$T/with/demo timeout 600 bash ./build.sh >$T/with.log 2>&1; echo "EVAL demo with change: exit $? ($(tail -1 $T/with.log | cut -c1-160))")
+(cd $T/without && UNODB_ROOT=/repo OUT=$T/without/demo timeout 600 bash ./build.sh >$T/without.log 2>&1; echo "EVAL demo without change: exit $? ($(tail -1 $T/without.log | cut -c1-160))")
 rm -rf $T
 tools/rmwt.sh $ID
 for P in "$@"; do
